@@ -55,6 +55,13 @@ func simtestMain() {
 	if raceOn {
 		check("unsynchronised counter is reported", strings.Contains(racy, "DATA RACE"), fmt.Sprintf("switches=%d", rep.Switches))
 	}
+	if raceOn {
+		// the racing accesses above are made by the harness itself (main.*): such a report is a
+		// harness error; one with a frame of the code under test on top is not
+		check("a race between two harness accesses is classified as harness-only", raceInHarnessOnly(racy), trunc(racy, 300))
+		foreign := "WARNING: DATA RACE\nRead at 0x00c0001 by goroutine 11:\n  main.errInfo()\n      harness/build.go:1 +0x1\n\nPrevious write at 0x00c0001 by goroutine 9:\n  github.com/jsightapi/jsight-api-core/core.(*JApiCore).next()\n      core/x.go:1 +0x1\n\n"
+		check("a race with the code under test on one side is not", !raceInHarnessOnly(foreign), "")
+	}
 	check("no lost update under strict alternation", shared == 12, fmt.Sprintf("shared=%d", shared))
 	rep = run(2, simrt.StratUniform, step(true), step(true))
 	clean := raceDelta()
